@@ -9,18 +9,24 @@ for f in sorted(glob.glob('/verif/seeded/*/meta.json')):
         notes = open(os.path.join(d, 'notes.md')).read()
     except OSError:
         pass
-    first = next((l.strip('# ').strip() for l in notes.splitlines() if l.strip()), '')
+    first_line = next((l.strip('# ').strip() for l in notes.splitlines() if l.strip()), '')
     ran = m.get('ran', [])
     demo_before = next((r.get('passed') for r in ran if 'unmodified' in r['cmd']), None)
     demo_after = next((r.get('fails_as_expected') for r in ran if 'vp_seed_demo (with' in r['cmd']), None)
     mods = '; '.join('%s %s' % (r['cmd'].split()[3], (r.get('result') or ['?'])[0:3]) for r in ran if '--lib' in r['cmd'])
     c = m.get('check', {})
+    first = m.get('first_run') or (c if m.get('check_after_strengthening') else None)
+    if m.get('check_after_strengthening'):
+        c = dict(c); c['violation_reported'] = m['check_after_strengthening'].get('violation_reported')
+        c['check_output'] = ['(re-run after strengthening) VIOLATION no-failing-input-found']
+    firstcol = '' if first is None else ('missed' if not first.get('violation_reported') else 'caught')
+    strengthening = m.get('strengthening', '')
     out = ' / '.join(c.get('check_output', [])[-1:])[:160]
-    rows.append((m['name'], m['property'], ', '.join(m.get('touched') or []), demo_before, demo_after, mods, c.get('violation_reported'), c.get('wall_s'), out, first[:140]))
+    rows.append((m['name'], m['property'], ', '.join(m.get('touched') or []), demo_before, demo_after, mods, c.get('violation_reported'), firstcol, c.get('wall_s'), out, first_line[:140], strengthening))
 with open('/verif/seeded/RESULTS.md', 'w') as fh:
     fh.write('# Seeded changes and what the checks reported\n\n')
     fh.write('Each change was produced by a fresh sub-agent that saw only the property text and a scratch worktree. It was then confirmed in a scratch worktree (`demo passes unmodified`, `module tests pass with the change`, `demo fails with the change`) and the property\'s quick check was run against /repo with the patch applied (and reverted straight afterwards).\n\n')
-    fh.write('| seed | property | touches | demo passes unmodified | demo fails with change | module tests with change | check reports VIOLATION | check wall s | last line of the check | what it is |\n|---|---|---|---|---|---|---|---|---|---|\n')
+    fh.write('| seed | property | touches | demo passes unmodified | demo fails with change | module tests with change | check reports VIOLATION | first version of the check | check wall s | last line of the check | what it is | strengthening |\n|---|---|---|---|---|---|---|---|---|---|---|---|\n')
     for r in rows:
         fh.write('| ' + ' | '.join(str(x) for x in r) + ' |\n')
     det = sum(1 for r in rows if r[6]); fh.write('\n%d of %d seeded changes reported as VIOLATION.\n' % (det, len(rows)))
